@@ -2,5 +2,5 @@
 From Coq Require Import Extraction ExtrOcamlBasic ExtrOcamlString.
 From Cb Require Import C02.Model.
 Extraction Language OCaml.
-Extraction "C02/c02_model.ml" parse p_assign enough_fuel pr strip wf full safeb no_gt_lp folb eval_fn lvl lev
-  pinned_table spec_table old_table table_total cast_type generic_scan.
+Extraction "C02/c02_model.ml" parse p_assign enough_fuel pr strip wf full safeb syn_safe no_gt_lp folb eval_fn lvl lev
+  pinned_table spec_table old_table table_total cast_type generic_scan id_upper id_type is_sizeof.
